@@ -1,13 +1,14 @@
 """Scenario driver for C10 (harness code): a sample type that implements the abstract Theta interface with one private array, one
-private scalar and one shared array, and the save-then-load round trip of a ThetaHolder through the REAL ThetaHolder.save_h5 / load_h5."""
+private scalar, one shared array and one shared scalar, and the save-then-load round trip of a ThetaHolder through the REAL ThetaHolder.save_h5 / load_h5."""
 from batchie.core import Theta, ThetaHolder
 
 
 class GenericTheta(Theta):
-    def __init__(self, A, s, B):
+    def __init__(self, A, s, B, c):
         self.A = A
         self.s = s
         self.B = B
+        self.c = c
 
     def predict_viability(self, data):
         raise NotImplementedError
@@ -22,11 +23,11 @@ class GenericTheta(Theta):
         return {"A": self.A, "s": self.s}
 
     def shared_parameters_dict(self):
-        return {"B": self.B}
+        return {"B": self.B, "c": self.c}
 
     @classmethod
     def from_dicts(cls, private_params, shared_params):
-        return cls(A=private_params["A"], s=private_params["s"], B=shared_params["B"])
+        return cls(A=private_params["A"], s=private_params["s"], B=shared_params["B"], c=shared_params["c"])
 
 
 def holder_roundtrip(h, fn):
